@@ -78,7 +78,30 @@ def gen_tree(rng, depth, maxdepth):
     if depth < maxdepth:
         for _ in range(rng.choice((0, 1, 1, 2, 3)) if depth < 2 else rng.choice((0, 0, 1))):
             c.add_component(gen_tree(rng, depth + 1, maxdepth))
+    if rng.random() < 0.12:
+        c.add_component(tz_subtree(rng))
     return c
+
+
+def tz_subtree(rng):
+    """a well-formed VTIMEZONE under an id used nowhere else in this process, with X- properties on it and inside its
+    observances (parsing it makes the provider build a zone from it: that must leave the tree alone)"""
+    import icalendar
+    tz = icalendar.Timezone()
+    tz.add("tzid", "Verif-%d/C20" % rng.randrange(10 ** 9))
+    if rng.random() < 0.5:
+        tz.add("x-lic-location", "Nowhere")
+    for cls, month, a, b, nm in ((icalendar.TimezoneStandard, 10, 2, 1, "VST"), (icalendar.TimezoneDaylight, 3, 1, 2, "VDT")):
+        o = cls()
+        o.add("dtstart", datetime(1970, month, 25, 3, 0, 0))
+        o.add("tzoffsetfrom", timedelta(hours=a))
+        o.add("tzoffsetto", timedelta(hours=b))
+        o.add("tzname", nm)
+        o.add("rrule", {"FREQ": ["YEARLY"], "BYMONTH": [month], "BYDAY": ["-1SU"]})
+        if rng.random() < 0.6:
+            o.add("x-observance-note", rng.choice(["winter time", "a;b", "n"]))
+        tz.add_component(o)
+    return tz
 
 
 def py_preorder(c):
